@@ -23,7 +23,7 @@ CHECKS = {}
 CHECKS["C01"] = {
     "engine": "E1 lattice explorer",
     "jobs": lambda tier: per_dim("C01.cpp", "C01", tier),
-    "rule": "unit = (order, duration alphabet, N, duration word, scale, start time); every unit runs the full data basis (each unit waypoint / boundary component, rotated per coordinate) + generic dyadic data through all 4 construction routes; distinct = distinct axis tuples; non-trivial = N >= 2 (a linear system is solved) Also: waypoints and boundary states read back through the hinted overloads with one carried hint; the first trajectory access after update() rotates through the four accessors; long splines N in {31,32,33,64,128}.",
+    "rule": "unit = (order, duration alphabet, N, duration word, scale, start time); every unit runs the full data basis (each unit waypoint / boundary component, rotated per coordinate) + generic dyadic data through all 4 construction routes; distinct = distinct axis tuples; non-trivial = N >= 2 (a linear system is solved) Also: waypoints and boundary states read back through the hinted overloads with one carried hint; the first trajectory access after update() rotates through the four accessors; long splines N in {31,32,33,64,128}. Start-time letter -3.7 (neither dyadic nor representable in single precision); route 6: an object that first held a problem two segments larger.",
     "bounds": {"quick": "3 orders x DIM {1,2,3,4,8} x N 1..5 x all 3^N duration words (dyadic alphabet; plus the nearly-equal alphabet {1-2^-21, 1, 1+2^-22} for N <= 4) x 3 start times x full data basis x 5 routes",
                "thorough": "3 orders x DIM 1..10 x (N 1..8 all 3^N words; N 9,10 all 2^N words) x 3 scales x 4 start times + jittered alphabet N<=6, full data basis x 4 routes"},
     "thresholds": {"interp/bc scaled residual (cubic/quintic/septic)": [1e-12, 1e-11, 1e-9], "routes": "bitwise"},
@@ -100,7 +100,7 @@ CHECKS["C04"] = {
 CHECKS["C13"] = {
     "engine": "E1 lattice explorer",
     "jobs": lambda tier: per_dim("C13.cpp", "C13", tier, quick=tuple(range(1, 11)), thorough=tuple(range(1, 11))),
-    "rule": "unit = (order, N, duration word, scale); every unit builds the D-dimensional spline (generic data with a different vector per coordinate, and data confined to one coordinate) and the D one-dimensional splines of its coordinates and compares coefficients, evaluations, propagated point/boundary gradients and energy gradients coordinate by coordinate, energy / duration gradients as sums over coordinates, and repeats under every cyclic shift and one transposition of the coordinates; the same comparison on objects reached by update() (both overloads) from a fit whose coordinate 0 lies in a map frame (+2^22) while one waypoint / the boundary velocity of the last coordinate moves by 2^-22; non-trivial = D >= 2 The update route also starts from a fit whose coordinates are all zero but one.",
+    "rule": "unit = (order, N, duration word, scale); every unit builds the D-dimensional spline (generic data with a different vector per coordinate, and data confined to one coordinate) and the D one-dimensional splines of its coordinates and compares coefficients, evaluations, propagated point/boundary gradients and energy gradients coordinate by coordinate, energy / duration gradients as sums over coordinates, and repeats under every cyclic shift and one transposition of the coordinates; the same comparison on objects reached by update() (both overloads) from a fit whose coordinate 0 lies in a map frame (+2^22) while one waypoint / the boundary velocity of the last coordinate moves by 2^-22; non-trivial = D >= 2 The update route also starts from a fit whose coordinates are all zero but one. The public per-dimension aliases name the class of their order and dimension.",
     "bounds": {"quick": "3 orders x D 1..10 x (N 1..5 all 3^N words, N 6 all 2^N)", "thorough": "3 orders x D 1..10 x (N 1..8 all 3^N words, N 9,10 all 2^N) x 3 scales"},
     "thresholds": {"coefficients (C02 metric)": [3e-9, 1e-8, 1e-6], "gradients": "1e3 x that (same algorithm on both sides; measured bit-identical)", "sums (relative to the energy itself)": 1e-9},
     "assumptions": ASSUME_COMMON,
@@ -200,7 +200,7 @@ ASSUME_OPT = ASSUME_COMMON + ["user functors follow the documented protocol (exp
 CHECKS["C07"] = {
     "engine": "E1 lattice explorer",
     "jobs": lambda tier: opt_jobs("C07", tier),
-    "rule": "unit = optimizer configuration (order, DIM, N, 8 flag bits, time map, spatial map, energy weight, integration steps K, running-cost functor from the generating set {p^2,v^2,a^2,j^2,s^2,p.v,g(t_global),segment weight,ALL x t_g^2,ALL x (1+sin t_g/4),zero}, start time, time/waypoint cost form); every unit evaluates at the initial guess and at a perturbed decision vector and compares EVERY gradient component with 4th-order Richardson central differences of the value returned by evaluate itself (two step sizes; their difference is the error bar), and the built-in workspace with an explicit one (bitwise); non-trivial = at least one flag set or N >= 2 Also: an optimizer assigned from this one after serving another problem, and descending / even-odd user executors on a workspace that last served another vector, return the same cost and gradient bitwise; long problems N in {8,16,17,32,33}; every K = 1..70.",
+    "rule": "unit = optimizer configuration (order, DIM, N, 8 flag bits, time map, spatial map, energy weight, integration steps K, running-cost functor from the generating set {p^2,v^2,a^2,j^2,s^2,p.v,g(t_global),segment weight,ALL x t_g^2,ALL x (1+sin t_g/4),zero}, start time, time/waypoint cost form); every unit evaluates at the initial guess and at a perturbed decision vector and compares EVERY gradient component with 4th-order Richardson central differences of the value returned by evaluate itself (two step sizes; their difference is the error bar), and the built-in workspace with an explicit one (bitwise); non-trivial = at least one flag set or N >= 2 Also: an optimizer assigned from this one after serving another problem, and descending / even-odd user executors on a workspace that last served another vector, return the same cost and gradient bitwise; long problems N in {8,16,17,32,33}; every K = 1..70. A reference duration of exactly 1 ms with both bundled time maps (the perturbed vector decodes below it).",
     "bounds": {"quick": "DIM 1..4 x 3 orders: all 256 flag masks x N 1..3 (DIM<=2) + per-axis sweeps (12 map pairs; 11 functors x 2 rho x 4 K; start times x cost forms) for 4 masks x N 1..5",
                "thorough": "as quick with N up to 6, K up to 64, all 256 masks x N 1..4 for every DIM, plus the full product 256 masks x 12 map pairs x 3 functors x 2 rho x 2 K for N 1..3, DIM <= 3"},
     "thresholds": {"|analytic - FD| <= max(10 x Richardson error bar, 1e-6 x largest gradient entry)": "observed 1e-9 of the largest entry"},
@@ -211,7 +211,7 @@ CHECKS["C07"] = {
 CHECKS["C08"] = {
     "engine": "E1 lattice explorer",
     "jobs": lambda tier: opt_jobs("C08", tier),
-    "rule": "unit = optimizer configuration as in C07; a recording running-cost functor stores every sample: exactly (K+1)N samples, segment index, local time k T_i/K, global time = start + elapsed + t, p/v/a/j/s = derivatives 0..4 of the workspace spline's published piece (exact polynomial calculus); returned cost = time + waypoint + trapezoid(recorded samples) + rho x getEnergy (1e-12) and = the reference model's cost from the decoded inputs through the dense long-double spline solve; decode of x checked against the layout model; two-cost overload = three-cost overload with a zero waypoint cost; getOptimalSpline after a built-in-workspace evaluation; basis rows of computeBasisFunctions vs falling factorials at 9 t values Also: descending / even-odd user executors give the same cost, gradient and (segment, t, t_global) samples bitwise; a second evaluation on the same workspace after changing only a boundary-derivative entry of x; long problems; every K = 1..70.",
+    "rule": "unit = optimizer configuration as in C07; a recording running-cost functor stores every sample: exactly (K+1)N samples, segment index, local time k T_i/K, global time = start + elapsed + t, p/v/a/j/s = derivatives 0..4 of the workspace spline's published piece (exact polynomial calculus); returned cost = time + waypoint + trapezoid(recorded samples) + rho x getEnergy (1e-12) and = the reference model's cost from the decoded inputs through the dense long-double spline solve; decode of x checked against the layout model; two-cost overload = three-cost overload with a zero waypoint cost; getOptimalSpline after a built-in-workspace evaluation; basis rows of computeBasisFunctions vs falling factorials at 9 t values Also: descending / even-odd user executors give the same cost, gradient and (segment, t, t_global) samples bitwise; a second evaluation on the same workspace after changing only a boundary-derivative entry of x; long problems; every K = 1..70. A reference duration of exactly 1 ms with both bundled time maps.",
     "bounds": {"quick": "same configuration set as C07 quick", "thorough": "same configuration set as C07 thorough"},
     "thresholds": {"sample state": 1e-11, "cost decomposition": 1e-12, "cost vs reference model (cubic/quintic/septic)": [1e-8, 1e-7, 1e-6]},
     "assumptions": ASSUME_OPT,
